@@ -2,4 +2,4 @@ import GopModel.Driver.Loop
 import GopModel.Driver.TplFront
 open GopModel.Driver
 def main : IO Unit := runDriver (dispatchWith
-  [("tplparse", handleTplParse), ("tplprint", handleTplPrint), ("tplnew", handleTplNew), ("tplcl", handleTplCl)])
+  [("tplparse", handleTplParse), ("tplprint", handleTplPrint), ("tplnew", handleTplNew), ("tplcl", handleTplCl), ("tplnewex", handleTplNewEx)])
